@@ -11,7 +11,7 @@ namespace {
 static Op mk(int code, int64_t a = 0, const Bytes &b = Bytes(), int64_t c = 0) { Op o; o.code = code; o.a = a; o.b = b; o.c = c; return o; }
 
 // reference: the pieces one write call contributes (independent of src/binson_writer.c)
-struct RefOp { std::vector<Bytes> pieces; bool null_error = false; };
+struct RefOp { std::vector<Bytes> pieces; bool null_error = false; bool refused = false; };
 static Bytes cstr(Bytes b) { size_t z = 0; while (z < b.size() && b[z]) z++; b.resize(z); return b; }
 
 static RefOp ref_of(const Op &o) {
@@ -29,6 +29,11 @@ static RefOp ref_of(const Op &o) {
         case W_BYTES: blob(0x18, o.b); break;
         case W_RAW: r.pieces.push_back(o.b); break;      // possibly empty: a zero-length piece fits whenever nothing failed before
         case W_STRING_NULL: case W_RAW_NULL: r.null_error = true; break;
+        case W_TO_WRITER:        // see WSession: only variant 1 stands on a container ({"b":1}); 4 = NULL parser (API error class); others append nothing and fail without latching
+            if (o.a % 5 == 1) r.pieces.push_back(Bytes{0x40, 0x14, 0x01, 0x62, 0x10, 0x01, 0x41});
+            else if (o.a % 5 == 4) r.null_error = true;
+            else r.refused = true;
+            break;
         default: break;
     }
     return r;
@@ -86,7 +91,7 @@ Plan capacity_generate(uint64_t base, const std::string &prop, uint64_t index, i
     } else {
         int n = 1 + (int)ro.below(40);
         for (int i = 0; i < n; i++) {
-            switch (ro.below(14)) {
+            switch (ro.below(15)) {
                 case 0: p.ops.push_back(mk(W_OBJ_BEGIN)); break; case 1: p.ops.push_back(mk(W_OBJ_END)); break;
                 case 2: p.ops.push_back(mk(W_ARR_BEGIN)); break; case 3: p.ops.push_back(mk(W_ARR_END)); break;
                 case 4: p.ops.push_back(mk(W_BOOL, (int64_t)ro.below(2))); break;
@@ -97,6 +102,7 @@ Plan capacity_generate(uint64_t base, const std::string &prop, uint64_t index, i
                 case 10: p.ops.push_back(mk(W_STRING_LEN, 0, payload(ro, tier))); break;
                 case 11: p.ops.push_back(mk(W_BYTES, 0, payload(ro, tier))); break;
                 case 12: p.ops.push_back(mk(W_RAW, 0, payload(ro, tier))); break;
+                case 13: p.ops.push_back(mk(W_TO_WRITER, (int64_t)ro.below(prop == "C09" ? 5 : 4))); break;
                 default: p.ops.push_back(mk(W_COUNTER)); break;
             }
         }
@@ -106,7 +112,8 @@ Plan capacity_generate(uint64_t base, const std::string &prop, uint64_t index, i
         // arbitrary further calls after the first failure, including ones that would fit, and the NULL error class
         int n = 1 + (int)ro.below(8);
         for (int i = 0; i < n; i++) {
-            switch (ro.below(9)) {
+            switch (ro.below(11)) {
+                case 9: case 10: p.ops2.push_back(mk(W_TO_WRITER, (int64_t)ro.below(5))); break;
                 case 0: p.ops2.push_back(mk(W_BOOL, 1)); break; case 1: p.ops2.push_back(mk(W_INT, interesting_int(ro))); break;
                 case 2: p.ops2.push_back(mk(W_OBJ_END)); break; case 3: p.ops2.push_back(mk(W_RAW, 0, Bytes())); break;
                 case 4: p.ops2.push_back(mk(W_STRING_LEN, 0, payload(ro, 0))); break; case 5: p.ops2.push_back(mk(W_BYTES, 0, Bytes{1})); break;
@@ -159,6 +166,7 @@ Result capacity_execute(const Plan &p, const ExecCtx &c) {
         size_t used = 0, k = 0; bool failed = false, nullerr = false; size_t stored = 0;
         auto apply_ref = [&](const RefOp &ro) -> bool {      // returns expected return value of the call
             if (ro.null_error) { if (!failed) { failed = true; k = used; } nullerr = true; return false; }
+            if (ro.refused) return false;        // nothing to extract: returns false, writer untouched (no latch)
             for (auto &pc : ro.pieces) {
                 if (!failed && used + pc.size() <= cap) { stored = used + pc.size(); }
                 else if (!failed) { failed = true; k = used; if (used < cap) cut_mid_token = true; }
@@ -210,7 +218,7 @@ Result capacity_execute(const Plan &p, const ExecCtx &c) {
         ws.setup(p.prefill);
         ws.call(mk(W_INIT, (int64_t)S));
         bool all = true;
-        for (auto &o : p.ops) { if (o.code == W_COUNTER) continue; Outcome x = ws.call(o); if (!x.ret) all = false; }
+        for (size_t oi = 0; oi < p.ops.size(); oi++) { if (p.ops[oi].code == W_COUNTER) continue; Outcome x = ws.call(p.ops[oi]); if (x.ret == ref[oi].refused) all = false; }
         if (!all || ws.err() != 0 || ws.counter() != S || (S && memcmp(ws.dest(), E.data(), S) != 0)) sink.fail("C04.retry", fmt("re-running the calls with a buffer of the reported size %zu did not succeed / fill it exactly (err=%s counter=%zu)", S, err_name(ws.err()), ws.counter()));
         points++;
     }
